@@ -2,7 +2,7 @@
 import sys,re,collections
 prop=sys.argv[1]
 seen=collections.OrderedDict()
-for l in open('/verif/.work/%s/violations.txt'%prop):
+for l in open('/verif/.work/%s/violations.txt'%prop, newline='\n'):
     part,idx,d=l.rstrip('\n').split('\t',2)
     m=re.match(r'(\[[^\]]*\]*\]?) (.*?) ⏎ source: (.*)',d)
     if not m:
